@@ -15,6 +15,12 @@
       K              the server closes the current connection; the harness waits until the
                      client has seen it (settled environment)
       C              rc.Close()
+      X:kw           the late-error schedule with a second goroutine B (k = T | U, w = a | b):
+                       a:  B.begin (parked before it enters the inner client) ; kill ; A ; C ; B.end
+                       b:  kill ; B.begin (parked after the inner client answered) ; A ; C ; B.end
+                     A = rc.TCP (sees the loss, the client is dropped), C = rc.TCP (reconnects),
+                     B.end = B's error from the REPLACED client is processed only now.
+                     result `x.B0.K.A.C.B` (B0 = parked, or B's result if it never reached the inner client)
       att ∈ ok | cfg (configFunc error) | bad (invalid config) | new (ConnFactory.New error)
             | tls | down (tr.DialEarly fails: handshake error / timeout, no quic.Conn)
             | rt (the server drops the connection while answering the auth request: RoundTrip error)
@@ -118,6 +124,36 @@ def doOp (cfg : Cfg) (s : St) (x : Aux) (op : String) : Option (St × Aux × Str
   | ["R", a] => (parseAtt a).map (fun a => call cfg s x .tcpRefused a false)
   | ["U", a] => (parseAtt a).map (fun a => call cfg s x .udp a false)
   | ["F", a] => (parseAtt a).map (fun a => call cfg s x .tcp a true)
+  | ["X", v] =>
+    let kb? : Option Kind := if v.startsWith "T" then some .tcp else if v.startsWith "U" then some .udp else none
+    let w? : Option Bool := if v.endsWith "a" then some true else if v.endsWith "b" then some false else none
+    match kb?, w?, v.length == 2 with
+    | some kb, some killAfter, true =>
+      if !s.started then some (s, x, "nostart")
+      else
+        let doKill (s : St) : St × String :=
+          match s.client with
+          | some c => if s.sock c == some true && !s.dead c then (step cfg s (.kill c), "kill") else (s, "nokill")
+          | none => (s, "nokill")
+        let (s, k1) := if killAfter then (s, "") else doKill s
+        -- B.begin (goroutine 1)
+        let n0 := s.nextId
+        let s := step cfg s (.callBegin 1 .ok)
+        let _ := n0
+        let (parkedOn, b0) := match s.pc 1 with
+          | .using c => (some c, "parked")
+          | .idle => (none, lastRet s)
+        let (s, k2) := if killAfter then doKill s else (s, "")
+        let k := if killAfter then k2 else k1
+        let (s, x, ra) := call cfg s x .tcp .ok false
+        let (s, x, rc) := call cfg s x .tcp .ok false
+        match parkedOn with
+        | some c =>
+          let r := settled s x.sat c kb
+          let s := step cfg s (.callEnd 1 r)
+          some (s, x, s!"x.{b0}.{k}.{ra}.{rc}.{lastRet s}")
+        | none => some (s, x, s!"x.{b0}.{k}.{ra}.{rc}.-")
+    | _, _, _ => none
   | ["K"] =>
     if !s.started then some (s, x, "nostart")
     else match s.client with
